@@ -250,8 +250,9 @@ def accepts (env : Env) (n : Node) (v : V) : Bool :=
           | some (some t) => acc env t v
           | some none => opts.any (fun o => acc env o v)
           | none => false)
-  | .lazy m _ t => (v.isNil && nilOK m) || acc env t v
+  | .lazy m _ t => (lazyNil v && nilOK m) || acc env t v
   | n =>
+    -- (a refinement attached to the container speaks about container values: it does not see an accepted nil)
     (v.isNilLike && nilOK (modsOf n))
       || ((!v.isNilLike || typedNilOfKind n v) &&
           (match shapeOf env n v with
@@ -275,7 +276,7 @@ def paths (env : Env) (n : Node) (v : V) : List (List Seg) :=
       | some s => s.ownPaths ++ s.asked.flatMap (fun (loc, m, x) => (errs env m x).map (fun i => loc ++ i.path))
 
 /-- Why today's code may differ from `accepts` on this case (failure-class key for known findings). -/
-def reason (env : Env) (n : Node) (v : V) : String :=
+def reason0 (env : Env) (n : Node) (v : V) : String :=
   match n with
   | .union .. | .xor .. | .inter .. =>
     if v.isNilLike then "nil-like-input-never-reaches-members"
@@ -284,7 +285,7 @@ def reason (env : Env) (n : Node) (v : V) : String :=
             if ((errs env l v).any isUnrec || (errs env r v).any isUnrec) then "unrecognized-keys-merged" else "other"
           | _ => "other")
   | .lazy _ direct t =>
-    if v.isNil then "nil-input-never-reaches-target"
+    if lazyNil v then "nil-input-never-reaches-target"
     else if !direct then "target-never-asked-result-type-unsupported"
     else if (errs env t v).any (fun x => x.code == .invalidType && x.expLazy) then "placeholder-error-swallowed"
     else "other"
@@ -295,5 +296,11 @@ def reason (env : Env) (n : Node) (v : V) : String :=
     else "other"
   | n =>
     if v.isNilLike && typedNilOfKind n v then "typed-nil-container-rejected" else "other"
+
+def reason (env : Env) (n : Node) (v : V) : String :=
+  if hasOverwrite (nodeChecks n) && !v.isNilLike && ptrPath n v then "overwrite-skips-validation"
+  else if v.isNilLike && nilOK (modsOf n) && (nodeChecks n).any (fun c => match c with | .custom _ => true | _ => false)
+    then "refinement-runs-on-nil"
+  else reason0 env n v
 
 end Gozod.Cont.Spec
